@@ -2,7 +2,7 @@
 import crashcheck
 
 PID = 'C02'
-TAGS = {'crashsync', 'crashopen', 'crashview', 'crashinvented', 'conforms', 'conformsdel'}
+TAGS = {'crashsync', 'crashopen', 'crashview', 'crashinvented', 'conforms', 'conformsdel', 'crashfollow'}
 THEOREMS = [
     'Lcdb.C02.synced_durable',
     'Lcdb.C02.synced_durable_strict',
@@ -26,7 +26,7 @@ TARGETS = ['LcdbModel.Props.C02']
 
 
 def run(tier):
-    return crashcheck.run_crash(PID, tier, TAGS, THEOREMS, IMPORTS, TARGETS, '1234', False)
+    return crashcheck.run_crash(PID, tier, TAGS, THEOREMS, IMPORTS, TARGETS, '1234', 'follow', quick=(8, 30, 28))
 
 
 def replay(path):
